@@ -71,13 +71,13 @@ pub fn deserialize_eps_zero<'a, T: ZeroCopy>(
     backend: &mut SliceWithPos<'a>,
 ) -> deser::Result<&'a T> {
     let bytes = core::mem::size_of::<T>();
-    if bytes == 0 {
-        // SAFETY: T is zero-sized and `assume_init` is safe.
-        #[allow(invalid_value)]
-        #[allow(clippy::uninit_assumed_init)]
-        return Ok(unsafe { MaybeUninit::uninit().assume_init() });
-    }
     backend.align::<T>()?;
+    if bytes == 0 {
+        // SAFETY: T is zero-sized, and after alignment the current position
+        // is a non-null pointer aligned for T (align_to() returns an empty
+        // middle slice for zero-sized types, so it cannot be used here).
+        return Ok(unsafe { &*(backend.data.as_ptr() as *const T) });
+    }
     let (pre, data, after) = unsafe { backend.data[..bytes].align_to::<T>() };
     debug_assert!(pre.is_empty());
     debug_assert!(after.is_empty());
@@ -94,6 +94,12 @@ pub fn deserialize_eps_slice_zero<'a, T: ZeroCopy>(
     let len = usize::_deserialize_full_inner(backend)?;
     let bytes = len * core::mem::size_of::<T>();
     backend.align::<T>()?;
+    if core::mem::size_of::<T>() == 0 {
+        // SAFETY: T is zero-sized, and after alignment the current position
+        // is a non-null pointer aligned for T; align_to() would return an
+        // empty slice, losing the length.
+        return Ok(unsafe { core::slice::from_raw_parts(backend.data.as_ptr() as *const T, len) });
+    }
     let (pre, data, after) = unsafe { backend.data[..bytes].align_to::<T>() };
     debug_assert!(pre.is_empty());
     debug_assert!(after.is_empty());
